@@ -30,7 +30,7 @@ package wkbcommon
 //@   requires len(dst) >= len(src) / 2
 //@   modifies dst[*]
 //@   ensures 0 <= n && n <= len(src) / 2
-//@   ensures err == nil ==> n == len(src) / 2
+//@   ensures err == nil ==> n == len(src) / 2 && len(src) % 2 == 0
 
 //@ extern bytes.NewReader(b)
 //@   modifies nothing
@@ -54,5 +54,105 @@ package wkbcommon
 //@   requires r != nil && len(buf) == 8
 //@   modifies buf[*]
 
-//@ func (*Decoder).Decode(d)
+//@ func (*Decoder).Decode(d) (g, srid, err)
 //@   requires d.r != nil
+//@   modifies nothing
+//@   ensures err == nil ==> g != nil
+//@   opt alloc=8
+
+//@ func readLineString(r, order, buf)
+//@   requires r != nil && len(buf) == 8
+//@   modifies buf[*]
+//@   opt alloc=MaxPointsAlloc
+
+//@ func readMultiPoint(r, order, buf)
+//@   requires r != nil && len(buf) == 8
+//@   modifies buf[*]
+//@   opt alloc=MaxPointsAlloc
+
+//@ func readMultiLineString(r, order, buf)
+//@   requires r != nil && len(buf) == 8
+//@   modifies buf[*]
+//@   opt alloc=MaxMultiAlloc
+
+//@ func readPolygon(r, order, buf)
+//@   requires r != nil && len(buf) == 8
+//@   modifies buf[*]
+//@   opt alloc=MaxMultiAlloc
+
+//@ func readMultiPolygon(r, order, buf)
+//@   requires r != nil && len(buf) == 8
+//@   modifies buf[*]
+//@   opt alloc=MaxMultiAlloc
+
+//@ func readCollection(r, order, buf)
+//@   requires r != nil && len(buf) == 8
+//@   modifies buf[*]
+//@   opt alloc=MaxMultiAlloc
+//@   loop 1: invariant d != nil && d.r == r
+
+// ---- one-shot byte decoders: how much of the input a successful decode accounts for
+// (this is what keeps the `data = data[...:]` advances of the callers in range)
+
+//@ func unmarshalPoints(order, data) (result, err)
+//@   modifies nothing
+//@   ensures err == nil ==> len(data) >= 4 + 16*len(result)
+//@   opt alloc=MaxPointsAlloc
+
+//@ func ScanPoint(data) (p, srid, err)
+//@   modifies nothing
+//@   ensures err == nil ==> len(data) >= 21
+
+//@ func unmarshalMultiPoint(order, data) (result, err)
+//@   modifies nothing
+//@   ensures err == nil ==> len(data) >= 4 + 21*len(result)
+//@   opt alloc=MaxMultiAlloc
+//@   loop 1: invariant 0 <= i && len(result) == i && len(data) + 21*i + 4 == old(len(data))
+
+//@ func ScanLineString(data) (ls, srid, err)
+//@   modifies nothing
+//@   ensures err == nil ==> len(data) >= 9 + 16*len(ls)
+
+//@ func unmarshalMultiLineString(order, data) (result, err)
+//@   modifies nothing
+//@   ensures err == nil && len(result) >= 1 ==> len(data) >= 13 + 16*len(result[0])
+//@   opt alloc=MaxMultiAlloc
+//@   loop 1: invariant 0 <= i && len(result) == i && len(data) + 4 <= old(len(data))
+//@   loop 1: invariant i >= 1 ==> old(len(data)) >= 13 + 16*len(result[0])
+
+//@ func unmarshalPolygon(order, data) (result, err)
+//@   modifies nothing
+//@   opt alloc=MaxMultiAlloc
+
+// unmarshalMultiPolygon advances by 9 + sum over rings of (4 + 16*len(ring)); keeping that advance in
+// range needs an induction over the ring sum that the generator does not do. It is NOT verified:
+// the contract below is assumed (listed under assumptions in the evidence).
+//@ func unmarshalMultiPolygon(order, data) (result, err)
+//@   trusted
+//@   modifies nothing
+
+//@ func ScanPolygon(data) (p, srid, err)
+//@   modifies nothing
+
+//@ func ScanMultiPolygon(data) (mp, srid, err)
+//@   modifies nothing
+
+//@ func ScanMultiPoint(data) (mp, srid, err)
+//@   modifies nothing
+
+//@ func ScanMultiLineString(data) (mls, srid, err)
+//@   modifies nothing
+
+//@ func ScanCollection(data) (c, srid, err)
+//@   modifies nothing
+
+//@ func Unmarshal(data) (g, srid, err)
+//@   modifies nothing
+//@   ensures err == nil ==> g != nil
+
+// Scan decodes in place when the input is hex text (hex.Decode(data, data)), hence modifies.
+// The destination, when given, is a non-nil pointer (a typed nil destination is the caller's error).
+//@ spec destOK(g interface{}) bool = (istype(g, *orb.Point) ==> as(g, *orb.Point) != nil) && (istype(g, *orb.MultiPoint) ==> as(g, *orb.MultiPoint) != nil) && (istype(g, *orb.LineString) ==> as(g, *orb.LineString) != nil) && (istype(g, *orb.MultiLineString) ==> as(g, *orb.MultiLineString) != nil) && (istype(g, *orb.Ring) ==> as(g, *orb.Ring) != nil) && (istype(g, *orb.Polygon) ==> as(g, *orb.Polygon) != nil) && (istype(g, *orb.MultiPolygon) ==> as(g, *orb.MultiPolygon) != nil) && (istype(g, *orb.Collection) ==> as(g, *orb.Collection) != nil) && (istype(g, *orb.Bound) ==> as(g, *orb.Bound) != nil)
+//@ func Scan(g, d) (geom, srid, valid, err)
+//@   requires destOK(g)
+//@   ensures err == ErrNotWKBHeader ==> istype(d, []byte) && len(as(d, []byte)) >= 5
